@@ -99,6 +99,36 @@ def condition(line, n, locals_=None):
     return h
 
 
+def named_locals(name, cmp):
+    """an extra local used in the text ('x0 >= tau'): the condition, the penalty and the constraint built from the same text and
+    locals all use the user's value, also when the name coincides with a math/numpy export (e, pi, tau, inf)"""
+    text = 'x0 %s %s + x1' % (cmp, name)
+    val = 0.5
+
+    def h(ctx):
+        import mystic.symbolic as ms
+        _ob.RTOL = 0.0
+        x = ctx.reals('x', 2)
+        conds = L_flat(ms.generate_conditions(text, nvars=2, locals={name: val}))
+        obs = [('one-condition', const(len(conds) == 1))]
+        v = conds[0](list(x))
+        lhs, rhs = x[0], R(val) + x[1]
+        if cmp == '>=':
+            obs.append(('condition-uses-the-given-local', eq(v, rhs - lhs)))
+        elif cmp == '<=':
+            obs.append(('condition-uses-the-given-local', eq(v, lhs - rhs)))
+        else:
+            obs.append(('condition-uses-the-given-local', eq(v, lhs - rhs)))
+        pf = ms.generate_penalty(ms.generate_conditions(text, nvars=2, locals={name: val}))
+        out = pf(list(x))
+        obs.append(('penalty-zero-iff-relation', Iff(eq(out, 0), rel(cmp, lhs, rhs))))
+        cf = ms.generate_constraint(ms.generate_solvers(text, nvars=2, locals={name: val}))
+        y = L.vec(cf(list(x)))
+        obs.append(('penalty-of-constrained-point-is-zero', eq(pf(list(y)), 0)))
+        return obs
+    return h
+
+
 def L_flat(c):
     if isinstance(c, (list, tuple)):
         out = []
@@ -202,6 +232,9 @@ def instances(tier, seed):
         out.append(Instance('condition12/%s' % l[0].replace(' ', ''), condition(l, 12)))
     for l in (LINES[2], LINES[3], LINES[9]):
         out.append(Instance('condition-locals/%s/tol=1e-3,rel=0.5' % l[0].replace(' ', ''), condition(l, 3, dict(tol=1e-3, rel=0.5))))
+    for name in ('a', 'tau', 'e', 'pi', 'inf', 'b_1'):
+        for cmp in (('>=', '=') if name in ('a', 'tau') else ('>=',)):
+            out.append(Instance('named-local/%s/%s' % (name, cmp), named_locals(name, cmp)))
     groups = [LINES[0:2], LINES[2:5], [LINES[4], LINES[6]], [LINES[0], LINES[3], LINES[5]], LINES[7:10]]
     if not q:
         groups += [LINES[0:4], [LINES[1], LINES[4], LINES[8]], [LINES[5]], [LINES[6]], [LINES[2]]]
